@@ -364,6 +364,20 @@ def p_tied_protoclusters(dumps: list[str]) -> bool:
     return False
 
 
+def p_equal_up_to_tied_order(stage: str, dumps: list[str]) -> bool:
+    """ the candidate / region dumps of all variants agree once the order of protoclusters inside a
+        candidate cluster, of products and of equally placed candidates is ignored """
+    def norm(text: str) -> str:
+        data = json.loads(text)
+        if stage == "candidates":
+            return json.dumps(sorted([kind, loc, sorted(protos)] for _, kind, loc, protos in data))
+        return json.dumps(sorted([sorted(products), len(cands), sorted(protos)] for _, products, cands, protos in data))
+    try:
+        return len({norm(text) for text in dumps}) == 1
+    except (ValueError, TypeError):
+        return False
+
+
 def _stage(clause: str) -> str:
     return clause.split(" [")[0].split("/", 1)[-1]
 
@@ -400,12 +414,21 @@ def _f2(clause: str, case: Any) -> bool:
 
 
 def _f3(clause: str, case: Any) -> bool:
-    """ two protoclusters with identical coordinates: their order inside candidate clusters / regions
-        (and so product order) follows the iteration order of a set of protocluster objects """
+    """ two protoclusters with identical coordinates, the protocluster dump itself is stable, and the
+        candidate / region dumps of the variants differ ONLY in the order of protoclusters inside a candidate
+        cluster / of products / of unique protoclusters (that order follows a set of protocluster objects) """
     if not _is_pipeline(case) or _kind(clause) not in ("seed", "setorder"):
         return False
-    return (_stage(clause) in ("candidates", "regions", "genbank", "json")
-            and bool(_obs(case, "tied_protoclusters")) and not _obs(case, "protoclusters_differ"))
+    if not _obs(case, "tied_protoclusters") or _obs(case, "protoclusters_differ"):
+        return False
+    stage = _stage(clause)
+    if stage == "candidates":
+        return bool(_obs(case, "candidates_equal_up_to_order"))
+    if stage == "regions":
+        return bool(_obs(case, "candidates_equal_up_to_order")) and bool(_obs(case, "regions_equal_up_to_order"))
+    # GenBank / JSON text: the structural dumps differ, and only in that order
+    return (stage in ("genbank", "json") and bool(_obs(case, "earlier_stage_differs"))
+            and bool(_obs(case, "candidates_equal_up_to_order")) and bool(_obs(case, "regions_equal_up_to_order")))
 
 
 def _f4(clause: str, case: Any) -> bool:
@@ -485,7 +508,11 @@ def compare_pipeline(run: Any, kind: str, scn: dict[str, Any], variants: dict[st
     observed_base = {"multi_definition": p_multi_definition(detections),
                      "detection_equal_up_to_definition_order": p_detection_equal_up_to_definition_order(detections),
                      "tied_protoclusters": p_tied_protoclusters(protos),
-                     "protoclusters_differ": len(set(protos)) > 1}
+                     "protoclusters_differ": len(set(protos)) > 1,
+                     "candidates_equal_up_to_order": p_equal_up_to_tied_order(
+                         "candidates", [variants[label].get("candidates", "") for label in labels]),
+                     "regions_equal_up_to_order": p_equal_up_to_tied_order(
+                         "regions", [variants[label].get("regions", "") for label in labels])}
     raised = sorted({text for label in labels for text in variants[label].values() if text.startswith("EXCEPTION")})
     _emit(run, f"{kind}/no-unexpected-exception", (raised[0], {"raised": raised[:3]}) if raised else None,
           scn, nontrivial, key)
